@@ -1,7 +1,7 @@
 (* Properties/C11.v -- Encoding is total and failures are classified correctly (the parts that are theorems). *)
 From Coq Require Import Arith NArith List Bool Lia.
 From DM Require Import Generated.Symbols Generated.ModeTables Model.Outcome Model.SymbolList Model.Planner Model.Enc
-  Model.RSEnc Model.Api Proofs.RSEncLen Proofs.EncLocal Proofs.EncTop Proofs.EncAscii.
+  Model.RSEnc Model.Api Model.PlannerRun Proofs.RSEncLen Proofs.EncLocal Proofs.EncTop Proofs.EncAscii Proofs.PlanTotal.
 Import ListNotations.
 Local Open Scope N_scope.
 
@@ -79,8 +79,37 @@ Proof.
 Qed.
 Print Assumptions C11_api_panic_source.
 
+(* (vi) the planner half of the totality claim, for every input, symbol list, start mode, mode set (all 64) and every sort
+   that returns a sub-list of its input: `optimize` returns -- none of the assertions of the five plan implementations
+   (look-ahead digits of AsciiPlan, at most two pending values in C40LikePlan, no unlatch after the end-of-data decision of
+   X12 / EDIFACT, the denominators of Frac::new), of add_switches, of the lock-step check of the main loop, of the final
+   selection, no u8 overflow of the value counter and none of the loop bounds of the model is ever reached *)
+Theorem C11_planner_total : forall sl sorter data written mode modes,
+  (forall k l, exists l', sorter k l = Ok l' /\ incl l' l) ->
+  exists r, optimize sl sorter data written mode modes = Ok r.
+Proof. intros sl sorter data written mode modes H. exact (optimize_total sl sorter H data written mode modes). Qed.
+Print Assumptions C11_planner_total.
+
+(* the stable sort by cost is such a sort; the public planning entry point with it *)
+Theorem C11_encodation_plan_total : forall data sl modes, exists r, encodation_plan stable_sorter data sl modes = Ok r.
+Proof. intros data sl modes. unfold encodation_plan. apply optimize_total_stable. Qed.
+Print Assumptions C11_encodation_plan_total.
+
+(* (vii) hence, with (iii): a panic of the data layer can only be a panic of the main loop of the encoder *)
+Theorem C11_panic_is_main_loop : forall sorter e p,
+  (forall sl k l, exists l', sorter sl k l = Ok l' /\ incl l' l) ->
+  codewords (optimize_fn sorter) e = Panic p ->
+  exists plan, main_loop (6 * length (e_data e) + 12)
+    (mkenc (e_data e) (e_input e) (e_encodation e) plan (e_new_mode e) (e_cw e) (e_modes e) (e_symbols e)) 0 = Panic p.
+Proof.
+  intros sorter e p HS H. destruct (codewords_panic_source _ e p H) as [L|M]; [|exact M]. exfalso. unfold optimize_fn in L.
+  destruct (optimize_total (e_symbols e) (sorter (e_symbols e)) (HS (e_symbols e)) (e_data e) (cw_len e) Ascii (e_modes e)) as [[r st] E].
+  rewrite E in L. discriminate.
+Qed.
+Print Assumptions C11_panic_is_main_loop.
+
 (* NOT a theorem here: that the main loop's assertions never fire, i.e. that the encoder reaches every switch
    position the planner chose (planner/encoder agreement).  It is decided per case by running model and
-   implementation (debug and release) on the same inputs; the planner's own termination bound is C19. *)
+   implementation (debug and release) on the same inputs; the planner's own termination bound is C19, its totality (vi). *)
 Example C11_example : encode_data_internal (fun _ _ _ _ => Ok None) [65] [Square10] None 63 true false = Err TooMuchOrIllegalData.
 Proof. reflexivity. Qed.
